@@ -44,6 +44,10 @@ func ParseDateTime(value string) (DateTime, error) {
 			// written offset happens to equal the local one; keep the fixed offset as written.
 			if _, offset := t.Zone(); offset == 0 {
 				t = t.UTC()
+			} else if offset <= -24*60*60 || offset >= 24*60*60 {
+				// time.Parse tolerates "+24:60"; an offset of a day or more has no string form
+				err = fmt.Errorf("time zone offset out of range")
+				continue
 			} else {
 				t = t.In(time.FixedZone("", offset))
 			}
